@@ -248,6 +248,13 @@ class SGen:
             return ("new", [self.value(0)], [("a", self.value(0))])
         return self.row(d - 1)
 
+    def short_row(self):
+        """a Row made by a Row class with FEWER values than fields (legal in PySpark), and its field names"""
+        r = self.r
+        names = r.sample(["a", "b", "c", "x", "name"], r.randint(1, 4))
+        m = r.randint(0, len(names) - 1)
+        return ("call", ("new", [("lit", n) for n in names], []), [("lit", gen_atom(r)) for _ in range(m)]), names
+
     def nested(self, depth):
         """containers that hold Rows at some depth (what asDict(recursive) / pickling / repr must traverse)"""
         r = self.r
@@ -284,8 +291,14 @@ class SGen:
                 row = ("new", [], [("w", self.nested(r.randint(0, 2)))])
             return ("repr", row if r.random() < 0.85 else self.value(d))
         if k < 0.30:
+            if r.random() < 0.3:
+                sr, names = self.short_row()
+                return ("getitem", sr, ("lit", r.choice(names)))
             return ("getitem", row, ("lit", gen_key(r)))
         if k < 0.42:
+            if r.random() < 0.25:
+                sr, names = self.short_row()
+                return ("getattr", sr, r.choice([n for n in names if n not in ("count", "index")] or ["a"]))
             pool = [n for n in NAMES if n not in ("count", "index")] + ["zz", "__x", "__fields__"]
             return ("getattr", row, r.choice(pool + (["count", "asDict"] if top else [])))
         if k < 0.52:
@@ -826,6 +839,9 @@ CORPUS = [
     ("new", [("lit", 1)], [("a", ("lit", 2))]),
     ("getitem", ("new", [], [("a", ("lit", 1))]), ("lit", "b")),
     ("getitem", ("new", [("lit", 1), ("lit", 2)], []), ("lit", "a")),
+    ("getitem", ("call", ("new", [("lit", "a"), ("lit", "b")], []), [("lit", 1)]), ("lit", "b")),   # KeyError in both
+    ("getattr", ("call", ("new", [("lit", "a"), ("lit", "b")], []), [("lit", 1)]), "b"),            # AttributeError
+    ("asdict", ("call", ("new", [("lit", "a"), ("lit", "b")], []), [("lit", 1)]), False),
     ("getattr", ("new", [], [("a", ("lit", 1))]), "b"),
     ("asdict", ("new", [("lit", 1)], []), False),
     ("asdict", ("call", ("new", [("lit", "a"), ("lit", "b"), ("lit", "a")], []), [("lit", 1), ("lit", 2), ("lit", 3)]), False),
